@@ -136,6 +136,9 @@ func (x *ex) line(idx int, kind string, args []string, res string) {
 }
 
 func execProgram(id int, p *Program, emit func(string)) (*failure, bool) {
+	if p.Target == "merge" {
+		return execMerge(id, p, emit), false
+	}
 	var snap []KV
 	for _, e := range p.Snap {
 		snap = append(snap, KV{unhx(e[0]), unhx(e[1])})
